@@ -576,6 +576,18 @@ impl Transaction {
         Ok(transaction)
     }
 
+    /// Fee, rebroadcast (ATR), issuance and SPV-placeholder transactions are generated by a block and
+    /// checked against the block's own recomputation; they never travel on their own.
+    pub fn is_block_generated_type(&self) -> bool {
+        matches!(
+            self.transaction_type,
+            TransactionType::Fee
+                | TransactionType::ATR
+                | TransactionType::Issuance
+                | TransactionType::SPV
+        )
+    }
+
     pub fn is_fee_transaction(&self) -> bool {
         self.transaction_type == TransactionType::Fee
     }
